@@ -96,7 +96,7 @@ var c02Variants = []c02Variant{
 	{"strict-prom-default", true, false, false},
 	{"relaxed-prom-default", false, false, false},
 	{"strict-thanos-full", true, true, true},
-	{"relaxed-prom-full", false, false, true},
+	{"relaxed-thanos-full", false, true, true},
 }
 
 // c02Lines counts lines the way pint's reader does (LF) and the way the YAML scanner does (any YAML line break).
@@ -496,6 +496,10 @@ func init() {
 		if len(args) > 2 {
 			stride, _ = strconv.Atoi(args[2])
 		}
+		workers := runtime.NumCPU()
+		if len(args) > 3 {
+			workers, _ = strconv.Atoi(args[3])
+		}
 		seed, _ := strconv.ParseInt(os.Getenv("VERIF_SEED"), 10, 64)
 		bases := make([]c02Base, len(in))
 		for i := range in {
@@ -504,7 +508,7 @@ func init() {
 			}
 		}
 		results := make([]c02Rec, n)
-		parallel(n, runtime.NumCPU(), func(k int) {
+		parallel(n, workers, func(k int) {
 			i := k * stride
 			name, content := c02Input(bases, i, seed)
 			dir, _ := os.MkdirTemp(shmDir(), "c02b-")
@@ -520,11 +524,30 @@ func init() {
 			}
 			os.WriteFile(filepath.Join(dir, ".pint.hcl"), []byte(cfg), 0o644)
 			argv := []string{"--no-color", "--offline", "--config", ".pint.hcl", "lint"}
-			if k%3 == 0 {
+			teamcity := k%3 == 0
+			owner := k%5 < 2
+			schemaThanos := k%7 == 3
+			if schemaThanos {
+				cfg = strings.Replace(cfg, "parser {\n", "parser {\n  schema = \"thanos\"\n", 1)
+				if !relaxed {
+					cfg = "parser {\n  schema = \"thanos\"\n}\n" + cfg
+				}
+				os.WriteFile(filepath.Join(dir, ".pint.hcl"), []byte(cfg), 0o644)
+			}
+			flags := []string{}
+			if teamcity {
 				argv = append(argv, "--teamcity")
+				flags = append(flags, "teamcity")
+			}
+			if owner {
+				argv = append(argv, "--require-owner")
+				flags = append(flags, "require-owner")
+			}
+			if schemaThanos {
+				flags = append(flags, "thanos")
 			}
 			argv = append(argv, "--checkstyle", "cs.xml", "--json", "out.json", "rules.yml")
-			ctx, cancel := context.WithTimeout(context.Background(), 10*time.Second)
+			ctx, cancel := context.WithTimeout(context.Background(), 20*time.Second)
 			defer cancel()
 			cmd := exec.CommandContext(ctx, pint, argv...)
 			cmd.Dir = dir
@@ -548,19 +571,54 @@ func init() {
 			sig := ""
 			msg := ""
 			if panicked {
+				full := se
 				if p := strings.Index(se, "panic:"); p >= 0 {
-					msg = firstLines(se[p:], 25)
-				} else {
-					msg = firstLines(se, 25)
+					full = se[p:]
+				} else if p := strings.Index(se, "fatal error:"); p >= 0 {
+					full = se[p:]
 				}
-				sig = c02NormPanic(strings.TrimPrefix(msg, "panic: "))
+				msg = firstLines(full, 25)
+				if len(full) > 20000 {
+					full = full[:20000]
+				}
+				sig = c02NormPanic(strings.TrimPrefix(full, "panic: "))
 			}
-			jsonOK := false
-			if b, err := os.ReadFile(filepath.Join(dir, "out.json")); err == nil {
-				jsonOK = json.Valid(b)
+			// output files: written at all? well-formed?
+			jsonWritten, jsonOK, csWritten, csOK := false, false, false, false
+			if b, err := os.ReadFile(filepath.Join(dir, "out.json")); err == nil && len(b) > 0 {
+				jsonWritten = true
+				var v []map[string]any
+				jsonOK = json.Unmarshal(b, &v) == nil
+			}
+			if b, err := os.ReadFile(filepath.Join(dir, "cs.xml")); err == nil && len(b) > 0 {
+				csWritten = true
+				d := xml.NewDecoder(bytes.NewReader(b))
+				csOK = true
+				for {
+					if _, err := d.Token(); err == io.EOF {
+						break
+					} else if err != nil {
+						csOK = false
+						break
+					}
+				}
+			}
+			// TeamCity service messages are written to stderr between the log lines
+			tcLines, tcOK := 0, true
+			if teamcity {
+				for _, l := range strings.Split(se, "\n") {
+					if strings.HasPrefix(l, "##teamcity[") {
+						tcLines++
+						if !c02TCLine.MatchString(l) {
+							tcOK = false
+						}
+					}
+				}
 			}
 			results[k] = c02Rec{"ev": "Bin", "id": k + 1, "input": name, "inputno": i, "relaxed": relaxed, "exit": exit, "panic": panicked,
-				"timeout": timedOut, "sig": sig, "msg": msg, "json_ok": jsonOK, "feat": c02Features(content),
+				"timeout": timedOut, "sig": sig, "msg": msg, "feat": c02Features(content), "flags": strings.Join(flags, "+"),
+				"json": c02Rec{"written": jsonWritten, "wf": jsonOK}, "checkstyle": c02Rec{"written": csWritten, "wf": csOK},
+				"teamcity": c02Rec{"used": teamcity, "lines": tcLines, "wf": tcOK},
 				"yaml_b64": func() string {
 					if panicked || timedOut || (exit != 0 && exit != 1) {
 						return base64.StdEncoding.EncodeToString(content)
